@@ -63,6 +63,24 @@ structure Ctx where
 
 def setVar (ρ : JS.Env) (x : String) (v : JSVal) : JS.Env := ρ ++ [(x, v)]   -- lookupProp takes the newest binding
 
+/-- `x.k = v` / `x['k'] = v` where `x` holds an object: ECMAScript updates the object `x` REFERS to - a key that exists keeps its
+place in the property order, a new key is appended. The value semantics of this specification equal that reference semantics exactly
+when nothing else refers to the same object; the specification therefore only speaks when the object is flat (primitive members, a
+primitive new value) and no other variable holds an object with the same key list (a possible alias) - otherwise it declines. -/
+def assignMember (ρ : JS.Env) (x k : String) (v : JSVal) : Option JS.Env :=
+  let prim : JSVal → Bool := fun w => match w with
+    | .arr _ | .obj _ => false
+    | _ => true
+  match JS.lookupProp ρ x with
+  | .obj props =>
+    let keys := props.map (·.1)
+    if !(props.all fun p => prim p.2) || !prim v then none else
+    if ρ.any (fun yw => yw.1 != x && (match yw.2 with | .obj ps => ps.map (·.1) == keys | _ => false)) then none else
+    if k.toList.all Char.isDigit then none else     -- integer-like keys are ordered numerically by ECMAScript: not modelled
+    let props' := if keys.contains k then props.map (fun p => if p.1 == k then (k, v) else p) else props ++ [(k, v)]
+    some (setVar ρ x (.obj props'))
+  | _ => none
+
 def isWs (c : Char) : Bool := c == ' ' || c == '\t' || c == '\r' || c == '\n'
 
 /-- is this node a control construct in the sense of C06 (its borders may swallow adjacent white space)? -/
@@ -130,6 +148,16 @@ partial def renderNode (ctx : Ctx) (n : Node) (ρ : JS.Env) (ctlBefore ctlAfter 
       | .var x none => ρ := setVar ρ x .undefined
       | .var x (some e) => do let v ← evalE ρ e; ρ := setVar ρ x v
       | .assign (.ident x) e => do let v ← evalE ρ e; ρ := setVar ρ x v
+      | .assign (.dot (.ident x) k) e => do
+        let v ← evalE ρ e
+        match assignMember ρ x k v with
+        | some ρ' => ρ := ρ'
+        | none => Outcome.undef "member assignment outside the alias-free subset"
+      | .assign (.idx (.ident x) (.str k)) e => do
+        let v ← evalE ρ e
+        match assignMember ρ x k v with
+        | some ρ' => ρ := ρ'
+        | none => Outcome.undef "member assignment outside the alias-free subset"
       | .inc x =>
         match lookupProp ρ x with
         | .num q => ρ := setVar ρ x (.num (q + 1))
